@@ -227,6 +227,7 @@ class Explorer:
     def note(self, r, opname_of=lambda s: s[1], outcome_of=lambda s: '%d %s' % (s[2], s[3])):
         self.histories += 1
         self.transitions += len(r['steps'])
+        self.longest = max(getattr(self, 'longest', 0), len(r['steps']))
         for s in r['steps']:
             self.outcomes.setdefault(opname_of(s), set()).add(outcome_of(s))
 
